@@ -36,6 +36,7 @@ type Interpreter struct {
 	rateCounters  map[string]*value.Ratecounter
 	penaltyBoxes  map[string]*value.Penaltybox
 	callStack     []*ast.SubroutineDeclaration
+	passed        bool // the current restart round went through vcl_pass: its response is not cached
 	Debugger      Debugger
 	IdentResolver func(v string) value.Value
 
@@ -311,6 +312,7 @@ func (i *Interpreter) ProcessBackends(statements []ast.Statement) error {
 
 func (i *Interpreter) ProcessRecv() error {
 	i.SetScope(context.RecvScope)
+	i.passed = false
 
 	// Simulate Fastly statement lifecycle
 	// see: https://developer.fastly.com/learning/vcl/using/#the-vcl-request-lifecycle
@@ -531,6 +533,7 @@ func (i *Interpreter) ProcessHit() error {
 
 func (i *Interpreter) ProcessPass() error {
 	i.SetScope(context.PassScope)
+	i.passed = true
 
 	if i.ctx.Backend == nil {
 		return exception.Runtime(nil, "No backend determined in PASS")
@@ -623,7 +626,11 @@ func (i *Interpreter) ProcessFetch() error {
 		}
 	}
 
-	i.updateCache()
+	// Only a response fetched for a cache miss and accepted by vcl_fetch is inserted:
+	// pass, hit_for_pass, error and restart leave the cache alone
+	if !i.passed && (state == DELIVER || state == DELIVER_STALE) {
+		i.updateCache()
+	}
 	switch state {
 	case DELIVER, DELIVER_STALE, PASS, HIT_FOR_PASS:
 		i.Debugger.Message(fmt.Sprintf("Move state: %s -> DELIVER", i.ctx.Scope))
